@@ -13,8 +13,9 @@ static Verdict run_hist(const Case &c, Stats *st_out = nullptr) {
     OtherIf oif;
     MapperModel mm;
     Stats st;
-    for (size_t i = 0; i < c.ops.size() && v.ok; i++) {
-        const Op &op = c.ops[i];
+    const std::vector<Op> ops = expand_repeats(c.ops);
+    for (size_t i = 0; i < ops.size() && v.ok; i++) {
+        const Op &op = ops[i];
         if (op.kind == K_ADVANCE) { vp_set_now_ms(vp_now_ms() + (uint64_t)op.arg(0)); continue; }
         if (op.kind == K_OTHERIF) { oif.step(w, h, op); continue; }   // Resets, Discovers ... on another interface of the host leave this one's mapper alone
         Built b = build_frame(h, op, sh);
@@ -100,7 +101,7 @@ int main(int argc, char **argv) {
     // ---- (2) random histories
     if (ok) {
         HistWeights w;
-        w.discover = 10; w.reset = 3; w.shell = 6; w.hello = 1; w.probe = 3; w.emit = 2; w.query = 2; w.qlt = 2; w.otherif = 2;
+        w.discover = 10; w.reset = 3; w.shell = 6; w.hello = 1; w.probe = 3; w.emit = 2; w.query = 2; w.qlt = 2; w.otherif = 2; w.repeat = 1;
         ok = run_cases(a, ev, "c05-histories", a.n(40000, 600000), 100, hg::hist_case(w, 5, 60), run);
     }
     ev.write(a.out);
